@@ -80,6 +80,15 @@ def _check(ctx, what, sig, ln, v, enc, typ, obj, ops, val, Dfg, Node, OutPort):
         links = list(d.hugr.linked_ports(ld.inp(0)))
         if len(links) != 1 or not isinstance(d.hugr[links[0].node].op, ops.Const):
             return bad("load wired to its Const", "one link from the Const", str(links), "load")
+        # the same in ONE long-lived container into which every earlier value has been loaded already: each load gets its own constant
+        sh = _SHARED_DFG.setdefault("d", Dfg())
+        ld2 = sh.load(obj)
+        src = [p.node for p in sh.hugr.linked_ports(ld2.inp(0))]
+        pt2 = sh.hugr.port_type(ld2.out(0))
+        cval = sh.hugr[src[0]].op.val if len(src) == 1 and isinstance(sh.hugr[src[0]].op, ops.Const) else None
+        if cval is None or pt2 is None or not W.same_t(W.enc_type(pt2), typ) or W.canon(W.strip_hugr(W.enc_value(cval))) != W.canon(W.strip_hugr(enc)):
+            return bad("load() into a container that already holds other constants", {"typ": typ, "enc": enc},
+                       {"typ": None if pt2 is None else W.enc_type(pt2), "enc": None if cval is None else W.enc_value(cval)}, "load: Const(v) + LoadConstant(TypeOfS(v))")
         # the helper constructors take Iterables: a one-shot iterator must give the same value
         obj1 = W.build_value(v, once=True)
         e1 = W.enc_value(obj1)
@@ -91,6 +100,13 @@ def _check(ctx, what, sig, ln, v, enc, typ, obj, ops, val, Dfg, Node, OutPort):
         e2 = W.enc_value(obj2)
         if W.canon(W.strip_hugr(e2)) != W.canon(W.strip_hugr(enc)) or not W.same_t(W.enc_type(obj2.type_()), typ):
             return bad("built with shared element objects", {"enc": enc, "typ": typ}, {"enc": e2, "typ": W.enc_type(obj2.type_())}, "TypeOfS / EncValS (one object at several positions)")
+        # lists handed to the constructors and changed by the caller afterwards do not reach into the value
+        W._ALIASED.clear()
+        obj3 = W.build_value(v, once="aliased")
+        W.poison_aliased()
+        e3 = W.enc_value(obj3)
+        if W.canon(W.strip_hugr(e3)) != W.canon(W.strip_hugr(enc)) or not W.same_t(W.enc_type(obj3.type_()), typ):
+            return bad("built from lists the caller changed afterwards", {"enc": enc, "typ": typ}, {"enc": e3, "typ": W.enc_type(obj3.type_())}, "TypeOfS / EncValS (value fixed at construction)")
         # ... and the constant keeps type, fields and extension sets when the HUGR holding it is saved and loaded
         from hugr.hugr import Hugr
         d.set_outputs(ld)
@@ -125,6 +141,9 @@ def _check(ctx, what, sig, ln, v, enc, typ, obj, ops, val, Dfg, Node, OutPort):
         opaque_inside = '"Ext"' in jv or any(f'"v": "{k}"' in jv for k in ("Int", "Float", "String", "Array", "List", "StaticArray", "Function"))
         if v["v"] != "Tuple" and not opaque_inside and not (back == obj):   # extension types / constants come back opaque
             return bad("decoded equals original", "equal", "not equal", "Dec(Enc(v)) = v")
+
+
+_SHARED_DFG: dict = {}
 
 
 def _ext_shape(x, val):
